@@ -23,6 +23,7 @@ import (
 	"testing"
 	"time"
 
+	"github.com/compose-spec/compose-go/v2/cli"
 	"github.com/compose-spec/compose-go/v2/graph"
 	"github.com/compose-spec/compose-go/v2/loader"
 	"github.com/compose-spec/compose-go/v2/types"
@@ -91,6 +92,7 @@ type Group struct {
 	Seed     uint64 `json:"seed"`
 	Perturb  bool   `json:"perturb"`
 	FailAt   int    `json:"fail_at,omitempty"` // callback index that fails (-1 none)
+	ViaCLI   bool   `json:"via_cli,omitempty"` // loads go through cli.ProjectOptions.LoadProject
 }
 
 type GroupRec struct {
@@ -157,7 +159,9 @@ func spin(p *prng) {
 }
 
 // loadOnce performs one load with its OWN ConfigDetails, environment map and options.
-func loadOnce(L *Layout, p *prng, perturb bool) outcome {
+func loadOnce(L *Layout, p *prng, perturb bool) outcome { return loadVia(L, p, perturb, false) }
+
+func loadVia(L *Layout, p *prng, perturb, viaCLI bool) outcome {
 	cd := types.ConfigDetails{WorkingDir: filepath.Join(L.root, L.WorkingDir), Environment: types.Mapping{}}
 	for k, v := range L.Env {
 		cd.Environment[k] = v
@@ -166,7 +170,7 @@ func loadOnce(L *Layout, p *prng, perturb bool) outcome {
 		cd.ConfigFiles = append(cd.ConfigFiles, types.ConfigFile{Filename: filepath.Join(L.root, f)})
 	}
 	o := L.Opts
-	proj, err := loader.LoadWithContext(context.Background(), cd, func(lo *loader.Options) {
+	loadOpt := func(lo *loader.Options) {
 		lo.SkipValidation = o.SkipValidation
 		lo.SkipNormalization = o.SkipNormalization
 		lo.ResolvePaths = !o.NoResolvePaths
@@ -183,7 +187,28 @@ func loadOnce(L *Layout, p *prng, perturb bool) outcome {
 			// a listener is a caller-supplied function the library calls on its hot paths (extends/include)
 			lo.Listeners = append(lo.Listeners, func(string, map[string]any) { spin(p) })
 		}
-	})
+	}
+	var proj *types.Project
+	var err error
+	if viaCLI {
+		// the same load through cli.ProjectOptions (own option object per call): .env lookup, OS environment
+		var files []string
+		for _, f := range L.Main {
+			files = append(files, filepath.Join(L.root, f))
+		}
+		var env []string
+		for k, v := range L.Env {
+			env = append(env, k+"="+v)
+		}
+		sort.Strings(env)
+		var po *cli.ProjectOptions
+		po, err = cli.NewProjectOptions(files, cli.WithWorkingDirectory(filepath.Join(L.root, L.WorkingDir)), cli.WithEnv(env), cli.WithDotEnv, cli.WithLoadOptions(loadOpt))
+		if err == nil {
+			proj, err = po.LoadProject(context.Background())
+		}
+	} else {
+		proj, err = loader.LoadWithContext(context.Background(), cd, loadOpt)
+	}
 	if err != nil {
 		return outcome{err: err.Error()}
 	}
@@ -306,7 +331,7 @@ func TestRace(t *testing.T) {
 					if g.Perturb {
 						spin(p) // start stagger
 					}
-					outs[i] = loadOnce(L, p, g.Perturb)
+					outs[i] = loadVia(L, p, g.Perturb, g.ViaCLI)
 				}()
 			}
 			for int(ready.Load()) < len(g.Layouts) {
@@ -379,10 +404,14 @@ func TestRace(t *testing.T) {
 		for _, pc := range pending {
 			for i, o := range pc.outs {
 				name := pc.g.Layouts[i]
-				s, ok := solo[name]
+				skey := name
+				if pc.g.ViaCLI {
+					skey += "#cli"
+				}
+				s, ok := solo[skey]
 				if !ok {
-					s = loadOnce(layouts[name], &prng{x: seed}, false)
-					solo[name] = s
+					s = loadVia(layouts[name], &prng{x: seed}, false, pc.g.ViaCLI)
+					solo[skey] = s
 					if s.ok {
 						res.Counters["solo-ok"]++
 					} else {
@@ -446,6 +475,7 @@ func TestRace(t *testing.T) {
 			switch k := master.n(10); {
 			case k < 7:
 				g.Kind = "loads"
+				g.ViaCLI = master.n(4) == 0
 				g.Threads = 2 + master.n(15)
 				same := master.n(3) == 0
 				first := names[master.n(len(names))]
@@ -456,7 +486,7 @@ func TestRace(t *testing.T) {
 						g.Layouts = append(g.Layouts, names[master.n(len(names))])
 					}
 				}
-				nt[fmt.Sprintf("loads:%v:%v", g.Layouts, g.Perturb)] = true
+				nt[fmt.Sprintf("loads:%v:%v:%v", g.Layouts, g.Perturb, g.ViaCLI)] = true
 			case k < 9:
 				g.Kind = "transform"
 				g.N = master.n(7)
